@@ -8,7 +8,14 @@
 //! (mutable index segment on top of a readonly one, un-normalised redundant view heads) and on
 //! a `ReadonlyRepo` freshly loaded from disk, and compared with a set-theoretic reference
 //! evaluator over the parent table (definitions from docs/revsets.md): same set, listed in
-//! descending index (= creation) order, no duplicates, optimised == unoptimised.
+//! descending index (= creation) order, no duplicates, optimised == unoptimised. For the
+//! expressions of depth <= 1 the same evaluation is also observed through `stream_graph()`,
+//! `is_empty()` and `containing_fn()`, which must agree with the `stream()` listing.
+//!
+//! Bounds: quick = depth <= 1 on every 4-commit graph + depth 2 on every 3-commit graph;
+//! thorough = depth <= 1 on every 5-commit graph (<= 2 parents) and 4-commit graph (<= 3
+//! parents), depth 2 on every 4-commit graph (<= 2 parents), depth 2 and 3 on every 3-commit
+//! graph. `bisect(x)` (no exact definition) is checked with a weak oracle, see `check_bisect`.
 //!
 //! A disagreement is only reported after a second, independent formulation of the reference
 //! (explicit path search over `BTreeSet`s, using the "equivalent to" formulas of the docs)
@@ -769,6 +776,9 @@ enum BOp {
 const BOPS: [BOp; 7] =
     [BOp::Range, BOp::DagRange, BOp::Reachable, BOp::Coalesce, BOp::Union, BOp::Inter, BOp::Diff];
 
+const OUTER_B: [BOp; 3] = [BOp::Union, BOp::Inter, BOp::Diff];
+const INNER_B: [BOp; 4] = [BOp::Range, BOp::DagRange, BOp::Inter, BOp::Diff];
+
 const GENS: [(u64, Option<u64>); 8] = [
     (0, Option::None),
     (0, Some(1)),
@@ -912,6 +922,9 @@ enum Fam {
     BLBLL,
     /// b(r(l), r(l)) with r from the reduced unary set
     BRLRL,
+    /// t(b'(b''(l, l), l)) with b' in {union, intersection, difference} and b'' in {range,
+    /// dag range, intersection, difference}: the `heads(x..y & filter)` shapes
+    TBBLLL,
     /// bisect(l), bisect(u(l)), bisect(b(l, l))
     BisL,
     BisUL,
@@ -946,6 +959,7 @@ impl Space {
             Fam::BBLLL => vec![nb, nb, nl, nl, nl],
             Fam::BLBLL => vec![nb, nl, nb, nl, nl],
             Fam::BRLRL => vec![nb, self.rs.len(), nl, self.rs.len(), nl],
+            Fam::TBBLLL => vec![nt, OUTER_B.len(), INNER_B.len(), nl, nl, nl],
         }
     }
 
@@ -972,6 +986,11 @@ impl Space {
             Fam::BBLLL => b(0, b(1, l(2), l(3)), l(4)),
             Fam::BLBLL => b(0, l(1), b(2, l(3), l(4))),
             Fam::BRLRL => b(0, apply_u(self.rs[d[1]], l(2), g), apply_u(self.rs[d[3]], l(4), g)),
+            Fam::TBBLLL => apply_u(
+                self.ts[d[0]],
+                apply_b(OUTER_B[d[1]], apply_b(INNER_B[d[2]], l(3), l(4)), l(5)),
+                g,
+            ),
             Fam::BisL => E::Bisect(Box::new(l(0))),
             Fam::BisUL => E::Bisect(Box::new(u(0, l(1)))),
             Fam::BisBLL => E::Bisect(Box::new(b(0, l(1), l(2)))),
@@ -983,7 +1002,15 @@ impl Space {
 // Running the real code
 // ---------------------------------------------------------------------------------------
 
-fn run_jj(repo: &dyn Repo, expr: &Arc<Rx>, optimized: bool) -> Result<Vec<CommitId>, String> {
+/// Evaluates and lists `stream()`. With `other_views`, also observes the same evaluation
+/// through `stream_graph()`, `is_empty()` and `containing_fn()` and describes the first
+/// disagreement with the `stream()` listing.
+fn run_jj(
+    repo: &dyn Repo,
+    expr: &Arc<Rx>,
+    optimized: bool,
+    other_views: Option<&Ids>,
+) -> Result<(Vec<CommitId>, Option<String>), String> {
     let revset = if optimized {
         expr.clone().evaluate(repo)
     } else {
@@ -991,7 +1018,38 @@ fn run_jj(repo: &dyn Repo, expr: &Arc<Rx>, optimized: bool) -> Result<Vec<Commit
     }
     .map_err(|e| format!("evaluation error: {e}"))?;
     let items: Vec<_> = revset.stream().collect::<Vec<_>>().block_on();
-    items.into_iter().map(|r| r.map_err(|e| format!("stream error: {e}"))).collect()
+    let list: Vec<CommitId> = items
+        .into_iter()
+        .map(|r| r.map_err(|e| format!("stream error: {e}")))
+        .collect::<Result<_, _>>()?;
+    let mut inconsistency = Option::None;
+    if let Some(ids) = other_views {
+        let nodes: Vec<_> = revset.stream_graph().collect::<Vec<_>>().block_on();
+        let nodes: Vec<CommitId> = nodes
+            .into_iter()
+            .map(|r| r.map(|(id, _edges)| id).map_err(|e| format!("stream_graph error: {e}")))
+            .collect::<Result<_, _>>()?;
+        if nodes != list {
+            let show = |v: &[CommitId]| -> Vec<Option<usize>> { v.iter().map(|id| ids.map.get(id).copied()).collect() };
+            inconsistency = Some(format!("stream_graph() lists {:?} but stream() lists {:?}", show(&nodes), show(&list)));
+        }
+        let empty = revset.is_empty().map_err(|e| format!("is_empty error: {e}"))?;
+        if empty != list.is_empty() && inconsistency.is_none() {
+            inconsistency = Some(format!("is_empty() = {empty} but stream() lists {} commits", list.len()));
+        }
+        let contains = revset.containing_fn();
+        for (i, id) in ids.ids.iter().enumerate() {
+            let c = contains(id).block_on().map_err(|e| format!("containing_fn error: {e}"))?;
+            if c != list.contains(id) && inconsistency.is_none() {
+                inconsistency = Some(format!("containing_fn(n{i}) = {c} but stream() says {}", list.contains(id)));
+            }
+        }
+    }
+    Ok((list, inconsistency))
+}
+
+fn wants_other_views(e: &E) -> bool {
+    e.children().iter().all(|c| c.children().is_empty()) && !matches!(e, E::Bisect(_))
 }
 
 struct Ids {
@@ -1023,6 +1081,7 @@ fn check_case(
     ids: &Ids,
     e: &E,
     double_check: bool,
+    other_views: bool,
     st: &Stats,
 ) -> Result<CaseOk, Fail> {
     let t0 = std::time::Instant::now();
@@ -1030,14 +1089,20 @@ fn check_case(
     let mut got: Vec<Vec<usize>> = vec![];
     for optimized in [false, true] {
         let which = if optimized { "optimized" } else { "unoptimized" };
-        let r = catch(|| run_jj(repo, &jj_expr, optimized)).map_err(|p| Fail {
+        let r = catch(|| run_jj(repo, &jj_expr, optimized, other_views.then_some(ids))).map_err(|p| Fail {
             sig: format!("C19/panic/{}", e.shape()),
             msg: format!("{} evaluation of {} panicked: {p}", which, e.show()),
         })?;
-        let list = r.map_err(|m| Fail {
+        let (list, inconsistency) = r.map_err(|m| Fail {
             sig: format!("C19/error/{}", e.shape()),
             msg: format!("{} evaluation of {} failed: {m}", which, e.show()),
         })?;
+        if let Some(m) = inconsistency {
+            return Err(Fail {
+                sig: format!("C19/other-views-disagree/{}", e.shape()),
+                msg: format!("{} evaluation of {}: {m}", which, e.show()),
+            });
+        }
         let mut nodes = vec![];
         for id in &list {
             match ids.map.get(id) {
@@ -1237,6 +1302,7 @@ struct Stats {
     cases: Counter,
     nontrivial: Counter,
     jj_evals: Counter,
+    other_views_cases: Counter,
     mutable_cases: Counter,
     readonly_cases: Counter,
     by_kind_cases: Vec<Counter>,
@@ -1266,6 +1332,7 @@ impl Stats {
             cases: Counter::new(),
             nontrivial: Counter::new(),
             jj_evals: Counter::new(),
+            other_views_cases: Counter::new(),
             mutable_cases: Counter::new(),
             readonly_cases: Counter::new(),
             by_kind_cases: (0..NKINDS).map(|_| Counter::new()).collect(),
@@ -1292,7 +1359,8 @@ struct Run<'a> {
     ctx: &'a Ctx,
     stats: &'a Stats,
     samples: &'a Samples,
-    samples_full: std::sync::atomic::AtomicBool,
+    /// one sample per top-level operator
+    sampled: Vec<std::sync::atomic::AtomicBool>,
 }
 
 fn case_json(g: &G, kind: &str, view_heads: u32, e: &E) -> Value {
@@ -1308,11 +1376,16 @@ fn case_json(g: &G, kind: &str, view_heads: u32, e: &E) -> Value {
 impl Run<'_> {
     /// one case: run the oracle, record counters / violation
     fn one(&self, repo: &dyn Repo, kind: &str, g: &G, view_heads: u32, ids: &Ids, e: &E, double_check: bool) {
+        // depth <= 1 (non-bisect) cases are also observed through the other views of a Revset
+        let other_views = wants_other_views(e);
+        if other_views {
+            self.stats.other_views_cases.inc();
+        }
         let st = self.stats;
         st.cases.inc();
         st.jj_evals.add(2);
         if kind == "mutable" { st.mutable_cases.inc() } else { st.readonly_cases.inc() }
-        match check_case(repo, g, view_heads, ids, e, double_check, st) {
+        match check_case(repo, g, view_heads, ids, e, double_check, other_views, st) {
             Ok(ok) => {
                 let k = e.kind();
                 st.by_kind_cases[k].inc();
@@ -1325,13 +1398,11 @@ impl Run<'_> {
                 }
                 if ok.expected != 0 && ok.expected != ok.all {
                     st.nontrivial.inc();
-                    if !self.samples_full.load(std::sync::atomic::Ordering::Relaxed)
-                        && ok.expected.count_ones() >= 2
+                    if ok.expected.count_ones() >= 2
                         && e.children().len() >= 1
+                        && !self.sampled[k].load(std::sync::atomic::Ordering::Relaxed)
+                        && !self.sampled[k].swap(true, std::sync::atomic::Ordering::Relaxed)
                     {
-                        if !self.samples.wants_more() {
-                            self.samples_full.store(true, std::sync::atomic::Ordering::Relaxed);
-                        }
                         self.samples.offer(|| {
                             let mut c = case_json(g, kind, view_heads, e);
                             c["expected"] = json!(descending(ok.expected));
@@ -1581,11 +1652,11 @@ fn replay(ctx: &Ctx, case: &Value) -> Result<(), Fail> {
     let ids = Ids { ids: id_list, map };
     set_heads(tx.repo_mut(), view_heads, &ids.ids);
     let r = if mutable {
-        check_case(tx.repo(), &g, view_heads, &ids, &e, true, &Stats::new())
+        check_case(tx.repo(), &g, view_heads, &ids, &e, true, wants_other_views(&e), &Stats::new())
     } else {
         tx.commit("c19 set heads").block_on().unwrap();
         let loaded = test_repo.env.load_repo_at_head(&settings, test_repo.repo_path());
-        check_case(loaded.as_ref(), &g, view_heads, &ids, &e, true, &Stats::new())
+        check_case(loaded.as_ref(), &g, view_heads, &ids, &e, true, wants_other_views(&e), &Stats::new())
     };
     let _ = ctx;
     r.map(|_| ())
@@ -1604,7 +1675,7 @@ fn main() {
     let depth1 = vec![Fam::L, Fam::UL, Fam::BLL, Fam::BisL, Fam::BisUL, Fam::BisBLL];
     let depth1_mut = vec![Fam::L, Fam::UL, Fam::BLL, Fam::BisL, Fam::BisUL];
     let depth2 = vec![Fam::UUL, Fam::UBLL, Fam::BULL, Fam::BLUL, Fam::BRLRL];
-    let depth3 = vec![Fam::UUUL, Fam::TBULL, Fam::TBLUL, Fam::BBLLL, Fam::BLBLL];
+    let depth3 = vec![Fam::UUUL, Fam::TBULL, Fam::TBLUL, Fam::BBLLL, Fam::BLBLL, Fam::TBBLLL];
     let cat = |a: &[Fam], b: &[Fam]| -> Vec<Fam> { a.iter().chain(b.iter()).copied().collect() };
     let plans: Vec<Plan> = if ctx.quick() {
         vec![
@@ -1624,9 +1695,17 @@ fn main() {
             },
         ]
     } else {
+        let depth2_n4 = vec![Fam::UUL, Fam::UBLL, Fam::BULL, Fam::BLUL];
         vec![
             Plan {
                 n: 5,
+                mutable_fams: depth1_mut.clone(),
+                readonly_fams: depth1_mut.clone(),
+                double_check_fams: depth1_mut.clone(),
+                max_parents: 2,
+            },
+            Plan {
+                n: 4,
                 mutable_fams: depth1_mut.clone(),
                 readonly_fams: depth1.clone(),
                 double_check_fams: depth1_mut.clone(),
@@ -1635,9 +1714,9 @@ fn main() {
             Plan {
                 n: 4,
                 mutable_fams: vec![],
-                readonly_fams: depth2.clone(),
+                readonly_fams: depth2_n4.clone(),
                 double_check_fams: vec![],
-                max_parents: 3,
+                max_parents: 2,
             },
             Plan {
                 n: 3,
@@ -1650,8 +1729,8 @@ fn main() {
     };
 
     let stats = Stats::new();
-    let samples = Samples::new(8);
-    let run = Run { ctx: &ctx, stats: &stats, samples: &samples, samples_full: std::sync::atomic::AtomicBool::new(false) };
+    let samples = Samples::new(NKINDS);
+    let run = Run { ctx: &ctx, stats: &stats, samples: &samples, sampled: (0..NKINDS).map(|_| std::sync::atomic::AtomicBool::new(false)).collect() };
     let mut plan_desc = vec![];
     for plan in &plans {
         let space = Space::new(plan.n);
@@ -1717,6 +1796,7 @@ fn main() {
             "reference_2": stats.ns_ref2.get() as f64 / 1e9,
         }),
     );
+    extra.insert("cases_also_observed_via_stream_graph_is_empty_containing_fn".into(), json!(stats.other_views_cases.get()));
     extra.insert("cases_on_mutable_repo".into(), json!(stats.mutable_cases.get()));
     extra.insert("cases_on_reloaded_readonly_repo".into(), json!(stats.readonly_cases.get()));
     extra.insert("graph_variants_built".into(), json!(stats.graphs.get()));
@@ -1761,6 +1841,7 @@ fn main() {
                 .into(),
             "committer timestamps are pairwise distinct, so latest() has no ties".into(),
             "WithinVisibility head sets: each single commit, all DAG heads, the root only (built directly, as at_operation() does)".into(),
+            "stream_graph()/is_empty()/containing_fn() are compared with the stream() listing for depth <= 1 expressions only; graph edges are C39's subject".into(),
         ],
         ..Default::default()
     };
